@@ -291,6 +291,11 @@ func (c *CheckCtx) addDrv(name string) {
 			}
 		}
 	}
+	c.Tables = append(c.Tables, fmt.Sprintf("%s action-windows: %d actions slice exactly yyR2[k] stack entries (yyS[yypt-N : yypt+1] with N == yyR2[k]); mismatches: %d", name, dv.windowChecked, len(dv.windowErr)))
+	for _, e := range dv.windowErr {
+		c.Extra = append(c.Extra, &Obligation{Name: prefix + "/table/action-window", Class: "table", Status: "sat", Solver: "table-evaluation", Props: []string{c.Prop},
+			Output: "the stack window of an action does not match its rule length: " + e})
+	}
 	for _, e := range dv.frameErr {
 		c.Extra = append(c.Extra, &Obligation{Name: prefix + "/frame/action-switch", Class: "frame", Status: "sat", Solver: "frame-scan", Props: []string{c.Prop},
 			Output: "the frame of the action switch is broken: " + e})
